@@ -87,7 +87,7 @@ class DiscSpec(netx.Spec):
 
     def canon_extra(self, world):
         m = world.mon
-        return (sorted(m["ref"]["hosted"].items()), sorted(m["ref"]["replicas"]), sorted(m["ref"]["subs"]), sorted(m["ref"]["agents"]), m["ref"]["nops"], sorted(m["ref"]["unsubbed"]), sorted(m["ref"].get("last_host", {}).items()), sorted(m["ref"].get("at_sub", {}).items()),
+        return (sorted(m["ref"]["hosted"].items()), sorted(m["ref"]["replicas"]), sorted(m["ref"]["subs"]), sorted(m["ref"]["agents"]), m["ref"]["nops"], sorted(m["ref"]["unsubbed"]), sorted(m["ref"].get("last_host", {}).items()), sorted(m["ref"].get("left", [])), sorted(m["ref"].get("at_sub", {}).items()),
                 sorted((k, v) for k, v in m.get("cb", {}).items()))
 
     def extra_events(self, world):
@@ -97,7 +97,8 @@ class DiscSpec(netx.Spec):
         evs = []
         for x in self.agents:
             if x not in ref["agents"]:
-                evs.append(("op", x, "regA", x))
+                if x not in ref.get("left", []):  # an agent that left does not come back with the same Discovery object
+                    evs.append(("op", x, "regA", x))
                 continue
             for c in self.cnames:
                 h = ref["hosted"].get(c)
@@ -151,6 +152,7 @@ class DiscSpec(netx.Spec):
         elif op == "unregA":
             d.unregister_agent(x)
             ref["agents"].remove(x)
+            ref.setdefault("left", []).append(x)
             # the directory forgets the subscriptions of an agent that un-registers
             for sub in [s_ for s_ in ref["subs"] if s_[0] == x]:
                 ref["subs"].remove(sub)
@@ -210,7 +212,7 @@ class DiscSpec(netx.Spec):
         if world.exception is not None:
             ev, et, msg, where = world.exception
             opk = ev[2] if ev[0] == "op" else ev[0]
-            report(f"C20|raised|{et}|{where[-1]}|during={opk}", f"history raised at {ev}: {et}: {msg} at {where}; ops so far {self.describe(world)}")
+            report(f"C20|raised|{et}|{netx.site(where)}|during={opk}", f"history raised at {ev}: {et}: {msg} at {where}; ops so far {self.describe(world)}")
             return
         if world.chans or any(world.front.values()):
             return
